@@ -4,7 +4,7 @@
 EXTENDS CallsValue, Json, FP
 CONSTANT ObsFile
 Obs == ndJsonDeserialize(ObsFile)
-ProgOf(r) == [shape |-> r.shape, rootErr |-> r.rootErr, extErr |-> r.extErr, rootCtx |-> r.rootCtx, extCtx |-> r.extCtx, extId |-> r.extId, wrap |-> r.wrap, declB |-> r.declB]
+ProgOf(r) == [shape |-> r.shape, rootErr |-> r.rootErr, extErr |-> r.extErr, rootCtx |-> r.rootCtx, extCtx |-> r.extCtx, extId |-> r.extId, wrap |-> r.wrap, declB |-> r.declB, under |-> r.under, declL |-> r.declL]
 Rng0(q) == {q[i] : i \in DOMAIN q}
 RECURSIVE FromJ(_)
 FromJ(v) ==
@@ -22,6 +22,8 @@ GenFinger(r) ==
   ELSE (IF r.gen = "ok" /\ ErrNeeded(p) THEN {<<"C07", "error-dropping-program-accepted", "", r.id>>} ELSE {})
        \cup (IF r.gen = "ok" /\ (CtxNeeded(p) \/ DeclCtxNeeded(p)) /\ ~ErrNeeded(p) THEN {<<"C06", "unavailable-context-accepted", "", r.id>>} ELSE {})
        \cup (IF r.gen = "fail" /\ GenOK(p) THEN {<<"C03", "rejected-convertible", "calls", r.id>>} ELSE {})
+       \* a position whose only conversion is the custom function / declared method on the underlying type: a rejection means it was not applied
+       \cup (IF r.gen = "fail" /\ GenOK(p) /\ KindsA(p) \cap UnderKinds # {} THEN {<<"C06", "custom-method-not-applied", "underlying-type", r.id>>} ELSE {})
        \cup (IF r.gen = "ok" /\ ~r.compiles
              THEN {<<"C01", "does-not-compile", IF AliasShadowed(p, r.dir) THEN "import-alias-shadowed-by-" \o r.dir ELSE IF Outcome(Gen(p)) = "uncompilable" THEN "stale-call-after-signature-retrofit" ELSE "unexplained", r.id>>} ELSE {})
        \cup (IF r.gen = "ok" /\ r.compiles /\ ~r.apiOK THEN {<<"C01", "declared-api-not-implemented", "", r.id>>} ELSE {})
